@@ -198,9 +198,10 @@ BaseStatement(P, st) ==
                   e2   == Expect(P, e1.st, "LPAREN")
               IN IF ~e2.ok THEN R(Nil, e2.st) ELSE FunctionTail(P, e2.st, "fdecl", name)
     [] ty = "RETURN" ->
-         LET pk == PeekT(P, st)
+         LET st0 == IF InFn(st) THEN st ELSE AddErr(P, st, "return", st.i)      \* return outside of a function
+             pk == PeekT(P, st0)
              v  == IF pk.ty \notin {"SEMICOLON", "EOF", "RBRACE"} /\ ~pk.nl
-                   THEN ParseExpr(P, NextTok(st), LOWEST) ELSE R(Nil, st)
+                   THEN ParseExpr(P, NextTok(st0), LOWEST) ELSE R(Nil, st0)
              s  == ExpectSemi(P, v.st)
          IN IF s.ok THEN R(Node("ret", "", <<v.n>>), s.st) ELSE R(Nil, s.st)
     [] ty = "IF" ->
